@@ -2,4 +2,7 @@ def module_for(pid):
     if pid in ('C01', 'C02', 'C03', 'C04', 'C05', 'C06', 'C07'):
         from . import decoder
         return decoder
+    if pid == 'C11':
+        from . import defrag
+        return defrag
     return None
